@@ -1,6 +1,8 @@
 """C06 — in-place addition on 4/8-byte variables never loses updates.
-For every member of the statement family (formats i I q Q x; shared array-map variable;
-amount = constant, register or expression over instance-private data; += and -=) the real
+For every member of the statement family (formats i I q Q x; shared array-map variable, declared or raw
+m?[...] access; amount = constant, register or expression over instance-private data; += and -=; the
+statement in a plain EBPF program, in a SubProgram, and in XDP programs before / inside / after packet-size
+guards and packet accesses; optionally another program generated before in the same process) the real
 generator's code is (1) checked to have the shape the theorem needs — exactly one XADD on
 the variable's address and no other access to it — and (2) executed by 2–3 instances of
 the interpreter over shared map memory under many schedules (instruction granularity),
@@ -31,122 +33,238 @@ TRUSTED = ["translation validation by proof (Ebv.C06TV.table_shape/xadd_on_varia
            "harness/vh/interp.py executes XADD as one atomic step"]
 ASSUMPTIONS = ["the kernel/CPU executes BPF_XADD (atomic add) atomically", "each instance has private registers and stack; only map memory is shared",
                "local (stack) variables are per instance, so for them only the single-instance statement is checked"]
-RULE = ("family = {i,I,q,Q,x} x {constant, register, expression} x {+=,-=} x {declared map variable, m?[base+const], m?[base+register]} on shared array-map memory (and a local variable, single instance); "
+RULE = ("family = {i,I,q,Q,x} x {constant, register, expression} x {+=,-=} x {declared map variable, m?[base+const], m?[base+register]} on shared array-map memory (and a local variable, single instance) "
+        "x program around the statement {EBPF, SubProgram, XDP, XDP with minimumPacketSize, inside / after a `with packetSize > n` block that reads and "
+        "modifies the packet, after an in-place addition on a PacketVar} x {nothing / another XDP program with packet accesses generated before}; every "
+        "program x address kind is shape-checked each run, a statement of the wrong shape is interleaved all the same (replay = lost update); "
         "2-3 instances, random initial values and amounts (boundary and random), schedules: random interleavings at instruction granularity plus every "
         "order of the XADD instructions; non-trivial = schedule in which another instance runs between an instance's amount computation and its XADD")
 
 FAMILY = [(f, k, s) for f in "iIqQx" for k in ("const", "reg", "expr") for s in (1, -1)]
 # how the shared variable is addressed: declared map variable, m?[base + const], m?[base + register] (computed address)
 ADDR_KINDS = ("var", "sum", "computed")
+# the program around the statement: a plain EBPF program; a SubProgram of one (variable declared in the sub-program); XDP programs
+# without any packet access, with `minimumPacketSize`, with the statement inside / after a `with self.packetSize > n as p:` block that
+# reads and modifies the packet, and with a declared PacketVar modified in place before the statement.  Packet memory is private to an
+# instance (not in the family); the statement's variable is always shared map memory.
+PROG_KINDS = ("ebpf", "sub", "xdp", "xdp-min", "xdp-guard", "xdp-after", "xdp-pvar")
+# what was generated in the same process before the statement's program (class-level state must not leak from one program to the next)
+PRIORS = (None, "packet")
+PKT = bytes((7 * i + 3) & 0xff for i in range(64))
 _cache = {}
+_built_prior = []       # once another program has been generated in this process every later case says so (replays stay exact)
 
 
-def build(fmt, kind, sign, const, local=False, addr="var", percpu=False):
-    key = (fmt, kind, sign, const, local, addr, percpu)
-    if key in _cache:
-        return _cache[key]
-    from ebpfcat.ebpf import EBPF, LocalVar
-    from ebpfcat.arraymap import ArrayMap, PerCPUArrayMap
+def _statement(e, holder, base, fmt, kind, sign, const, addr, legacy=False):
+    """issue `v += amount` / `v -= amount` for the variable `v` declared on `holder` (the program or a sub-program)"""
+    e.owners.add(8)
+    amt = {"const": const, "reg": e.r8, "expr": e.r8 * 3 + const}[kind]
+    if addr == "var":
+        if sign > 0:
+            holder.v += amt
+        else:
+            holder.v -= amt
+        return
+    arr = {"i": e.mi, "I": e.mI, "q": e.mq, "Q": e.mQ, "x": e.mx}[fmt]
+    if addr == "sum":
+        a = e.r[base] + holder.__dict__["v"]
+    elif legacy:
+        e.owners.add(6)                     # r6 holds the variable's offset (set by the environment)
+        a = e.r[base] + e.r6
+    else:
+        e.r6 = holder.__dict__["v"]         # the variable's offset in a register: address = register + register
+        a = e.r[base] + e.r6
+    if sign > 0:
+        arr[a] += amt
+    else:
+        arr[a] -= amt
+
+
+def _prior(kind):
+    """generate another program first, as a process which builds several programs does"""
+    from ebpfcat.xdp import XDP, PacketVar
+    from ebpfcat.arraymap import ArrayMap
+    if kind is None:
+        return
+    _built_prior.append(kind)
 
     def program(self):
-        self.owners.add(8)
-        amt = {"const": const, "reg": self.r8, "expr": self.r8 * 3 + const}[kind]
-        if addr == "var":
-            if sign > 0:
-                self.v += amt
-            else:
-                self.v -= amt
-        else:
-            arr = {"i": self.mi, "I": self.mI, "q": self.mq, "Q": self.mQ, "x": self.mx}[fmt]
-            if addr == "sum":
-                a = self.r7 + self.__dict__["v"]
-            else:
-                self.owners.add(6)          # r6 holds the variable's offset (set by the environment)
-                a = self.r7 + self.r6
-            if sign > 0:
-                arr[a] += amt
-            else:
-                arr[a] -= amt
-        self.other = 1
+        with self.packetSize > 30 as p:
+            p.pI[4] += 1
+            p.pQ[8] -= self.r2
+            self.r3 = p.pB[1] + p.pH[2]
+        self.pv += 1
+        self.pw -= 2
+        self.cnt += 1
+    m = ArrayMap()
+    cls = type("Prior", (XDP,), {"program": program, "m": m, "cnt": m.globalVar("I"), "pv": PacketVar(12, "I"), "pw": PacketVar(16, "Q"),
+                                  "minimumPacketSize": 40})
+    with fsim.fake_maps():
+        e = cls(license="GPL")
+        e.owners |= {2, 3}
+        e.assemble()
+
+
+def build(fmt, kind, sign, const, local=False, addr="var", percpu=False, prog="ebpf", prior=None):
+    key = (fmt, kind, sign, const, local, addr, percpu, prog, prior)
+    if key in _cache:
+        return _cache[key]
+    from ebpfcat.ebpf import EBPF, LocalVar, SubProgram
+    from ebpfcat.arraymap import ArrayMap, PerCPUArrayMap
+    from ebpfcat.xdp import XDP, PacketVar
+    _prior(prior)
+    m = None if local else (PerCPUArrayMap() if percpu else ArrayMap())   # per-CPU: the instances of one CPU share the CPU's copy
+    base = 10 if local else m.base_register
+    if local:
+        decl = {"v": LocalVar(fmt), "other": LocalVar("I")}
+    elif prog == "ebpf":    # the statements of the regenerated translation-validation table (harness/vh/extract.py): kept as they are
+        decl = {"v": m.globalVar(fmt), "other": m.globalVar("I")}
+    else:   # `pad` first: the variable's offset in the map is not zero
+        decl = {"pad": m.globalVar("Q"), "v": m.globalVar(fmt), "other": m.globalVar("I")}
+
+    def stmt(self, holder=None):
+        _statement(self, holder or self, base, fmt, kind, sign, const, addr, legacy=prog == "ebpf")
+
+    def finish(self, holder=None):
+        (holder or self).other = 1
         self.r0 = 0
         self.exit()
 
+    def program(self):
+        if prog == "sub":
+            for s in self.subprograms:
+                s.program()
+            return
+        if prog == "xdp-guard":
+            with self.packetSize > 20 as p:
+                self.r5 = p.pI[4]
+                p.pI[8] += 1
+                p.pQ[12] -= self.r5
+                stmt(self)
+        elif prog == "xdp-after":
+            with self.packetSize > 20 as p:
+                self.r5 = p.pH[2]
+                p.pB[3] = 1
+            stmt(self)
+        elif prog == "xdp-pvar":
+            self.pv += 2
+            self.r5 = self.pI[4] + self.pw
+            self.pQ[16] += 1
+            stmt(self)
+        else:
+            stmt(self)
+        finish(self)
+
     ns = {"program": program}
-    if local:
-        ns["v"] = LocalVar(fmt)
-        ns["other"] = LocalVar("I")
-    else:
-        m = PerCPUArrayMap() if percpu else ArrayMap()     # per-CPU: the instances of one CPU share the CPU's copy
+    holder_of = lambda e: e
+    if prog == "sub":
+        def sub_program(self):
+            stmt(self.ebpf, self)
+            finish(self.ebpf, self)
+        sub = type("S", (SubProgram,), dict(decl, program=sub_program))()
         ns["m"] = m
-        ns["v"] = m.globalVar(fmt)
-        ns["other"] = m.globalVar("I")
-    cls = type("P", (EBPF,), ns)
+        parent, kw = EBPF, {"subprograms": [sub]}
+        holder_of = lambda e: sub
+    else:
+        ns.update(decl)
+        if m is not None:
+            ns["m"] = m
+        parent, kw = (EBPF, {}) if prog == "ebpf" else (XDP, {"license": "GPL"})
+        if prog in ("xdp-min", "xdp-pvar"):
+            ns["minimumPacketSize"] = 30
+        if prog == "xdp-pvar":
+            ns["pv"] = PacketVar(12, "I")
+            ns["pw"] = PacketVar(20, "Q")
+    cls = type("P", (parent,), ns)
     with fsim.fake_maps() as created:
-        e = cls()
+        e = cls(**kw)
         e.assemble()
+    h = holder_of(e)
     info = {"insns": list(e.opcodes), "fd": created[0][0] if created else None,
-            "size": created[0][1][2] if created else None,
-            "off": e.__dict__["v"] if not local else cls.__dict__["v"].relative_addr,
-            "off_other": e.__dict__["other"] if not local else cls.__dict__["other"].relative_addr}
+            "size": created[0][1][2] if created else None, "xdp": prog.startswith("xdp"),
+            "off": h.__dict__["v"] if not local else cls.__dict__["v"].relative_addr,
+            "off_other": h.__dict__["other"] if not local else cls.__dict__["other"].relative_addr}
     _cache[key] = info
     return info
 
 
 class LoggingMachine(interp.Machine):
-    """records which instruction touches which bytes"""
+    """records which instruction touches which bytes (and whether it writes them)"""
     def __init__(self, *a, **k):
         super().__init__(*a, **k)
         self.accesses = []
 
     def load(self, addr, size):
-        self.accesses.append((self.pc, addr, size))
+        self.accesses.append((self.pc, addr, size, False, len(self.trace) - 1))
         return super().load(addr, size)
 
     def store(self, addr, size, val):
-        self.accesses.append((self.pc, addr, size))
+        self.accesses.append((self.pc, addr, size, True, len(self.trace) - 1))
         return super().store(addr, size, val)
+
+
+def machine(info, mp, r3, cls=interp.Machine):
+    """one instance: private registers, stack, XDP context and packet; the map value is the shared object"""
+    regions, helpers = [], {}
+    if mp is not None:
+        regions, helpers = [mp.value], interp.std_helpers({info["fd"]: mp})
+    if info.get("xdp"):
+        regs, _ = interp.xdp_regions(PKT)
+        regions = regions + regs
+    m = cls(info["insns"], regions, helpers)
+    m.wr(1, interp.CTX_BASE if info.get("xdp") else 0)
+    m.wr(8, r3)
+    m.wr(6, info["off"])
+    m.pc = 0
+    m.exited = False
+    return m
+
+
+def solo(info, fmt, local, r3=5):
+    """run one instance alone, every access logged; returns (machine, address of the variable) or a fault text"""
+    mp = interp.ArrayMapModel(info["fd"], info["size"]) if info["fd"] is not None else None
+    m = machine(info, mp, r3, LoggingMachine)
+    try:
+        m.run()
+    except interp.Fault as e:
+        return f"fault: {e}", None
+    return m, (interp.STACK_TOP if local else mp.value.base) + info["off"]
+
+
+def touching(m, cell, n):
+    return [t for t in m.accesses if t[1] < cell + n and cell < t[1] + t[2]]
 
 
 def shape(info, fmt, local, r3=5):
     """run one instance alone: exactly one XADD executes, it is on the variable, with the variable's width, and no other
     instruction touches the variable's bytes (so everything before it is private computation)"""
     n = 4 if fmt in "iI" else 8
-    regions, helpers, mp = [], {}, None
-    if info["fd"] is not None:
-        mp = interp.ArrayMapModel(info["fd"], info["size"])
-        regions, helpers = [mp.value], interp.std_helpers({info["fd"]: mp})
-    m = LoggingMachine(info["insns"], regions, helpers)
-    m.wr(1, 0)
-    m.wr(8, r3)
-    m.wr(6, info["off"])
-    try:
-        m.run()
-    except interp.Fault as e:
-        return f"fault: {e}"
-    cell = (interp.STACK_TOP if local else mp.value.base) + info["off"]
+    m, cell = solo(info, fmt, local, r3)
+    if cell is None:
+        return m
     xs = [pc for pc in m.trace if (m.insns[pc][0] & 0xe7) == 0xc3]
     if len(xs) != 1:
         return f"{len(xs)} XADD instructions executed"
-    touching = [(pc, a, sz) for pc, a, sz in m.accesses if a < cell + n and cell < a + sz]
-    if any(pc != xs[0] for pc, _, _ in touching):
-        return f"instruction {[pc for pc, _, _ in touching if pc != xs[0]][0]} accesses the variable besides the XADD"
-    if not touching or any((a, sz) != (cell, n) for _, a, sz in touching):
-        return f"XADD is not on the variable (accesses {touching[:2]}, variable at {cell:#x}+{n})"
+    tch = touching(m, cell, n)
+    if any(t[0] != xs[0] for t in tch):
+        return f"instruction {[t[0] for t in tch if t[0] != xs[0]][0]} accesses the variable besides the XADD"
+    if not tch or any((t[1], t[2]) != (cell, n) for t in tch):
+        return f"XADD is not on the variable (accesses {[t[:3] for t in tch[:2]]}, variable at {cell:#x}+{n})"
     return None
+
+
+def first_write(info, fmt, r3):
+    """number of instructions an instance executes before the first one that writes the variable (None: it never does)"""
+    m, cell = solo(info, fmt, False, r3)
+    if cell is None:
+        return None
+    w = [t[4] for t in touching(m, cell, 4 if fmt in "iI" else 8) if t[3]]
+    return w[0] if w else None
 
 
 def make_threads(info, fmt, n, r3s):
     mp = interp.ArrayMapModel(info["fd"], info["size"])
-    ms = []
-    for r3 in r3s:
-        m = interp.Machine(info["insns"], [mp.value], interp.std_helpers({info["fd"]: mp}))
-        m.wr(1, 0)
-        m.wr(8, r3)
-        m.wr(6, info["off"])
-        m.pc = 0
-        m.exited = False
-        ms.append(m)
-    return mp, ms
+    return mp, [machine(info, mp, r3) for r3 in r3s]
 
 
 def run_sched(ms, sched):
@@ -165,73 +283,95 @@ def amount_of(fmt, kind, sign, const, r3, bits):
     return (sign * a) % (1 << bits)
 
 
+def execute(info, bits, r3s, pres, init, sched):
+    """2-3 instances of the real code under one schedule -> (final value, all completed, canonical line)"""
+    mp, ms = make_threads(info, None, len(r3s), r3s)
+    struct.pack_into("<Q" if bits == 64 else "<I", mp.value.data, info["off"], init)
+    try:
+        run_sched(ms, sched)
+    except interp.Fault as e:
+        return None, False, f"fault:{e}"
+    final, = struct.unpack_from("<Q" if bits == 64 else "<I", mp.value.data, info["off"])
+    return final, all(m.exited for m in ms), f"{final} {' '.join('1' if m.steps > p else '0' for m, p in zip(ms, pres))}"
+
+
+CONSTS = {"x": [0, 1, 5, 255, 1000, 0x7fffffff // 100000]}
+
+
+def interleave(ctx, scase, info, cases, impl, quick_scheds=3):
+    """2-3 instances of one statement under random and critical schedules, judged by the property"""
+    rng = ctx.rng
+    fmt, kind, sign, const = scase["fmt"], scase["amount"], scase["sign"], scase["const"]
+    bits = 32 if fmt in "iI" else 64
+    nthreads = rng.choice([2, 3])
+    r3s = [rng.choice([0, 1, 2, 0xffff, 0x7fffffff, (1 << 32) - 1, (1 << 63), (1 << 64) - 1]) if rng.random() < 0.5
+           else rng.getrandbits(rng.choice([8, 32, 64])) for _ in range(nthreads)]
+    init = rng.choice([0, 1, (1 << bits) - 1, (1 << (bits - 1)), rng.getrandbits(bits)])
+    # solo runs: number of instructions each instance executes before the one that first writes the variable
+    pres = [first_write(info, fmt, r3) for r3 in r3s]
+    if any(p is None for p in pres):
+        ctx.require(False, "an instance of the statement never writes the variable", dict(scase, r3=r3s), str(pres), "shape")
+        return
+    total = max(len(info["insns"]) + 3, 30)
+    scheds = []
+    for _ in range(ctx.n(quick_scheds, 10)):
+        s = [i for i in range(nthreads) for _ in range(total)]
+        rng.shuffle(s)
+        scheds.append(s)
+    for perm in itertools.permutations(range(nthreads)):
+        # all run up to their write of the variable, then the writing instructions in this order, then the rest
+        scheds.append([i for i in range(nthreads) for _ in range(pres[i])] + list(perm) + [i for i in range(nthreads) for _ in range(total)])
+    amounts = [amount_of(fmt, kind, sign, const, r3, bits) for r3 in r3s]
+    for s in scheds:
+        final, alldone, out = execute(info, bits, r3s, pres, init, s)
+        case = {"bits": bits, "sched": s, "cell": init, "threads": [[p, a] for p, a in zip(pres, amounts)], "stmt": scase, "r3": r3s}
+        ctx.case({k: case[k] for k in ("bits", "cell", "threads", "stmt")} | {"schedule_len": len(s)},
+                 nontrivial=True, kind=f"{fmt}-{kind}-{scase['addr']}-{scase['prog']}")
+        if alldone:
+            ctx.require(final == (init + sum(amounts)) % (1 << bits), "an update was lost (final value is not initial + sum of all amounts)",
+                        case, out, "lost")
+        else:
+            ctx.require(final is not None, "execution fault", case, out, "fault")
+        cases.append(case); impl.append(out)
+
+
 def run(ctx):
     rng = ctx.rng
     cases, impl = [], []
+    consts = lambda fmt: CONSTS.get(fmt, [0, 1, 5, 255, 1000, 0x7fffffff])
+    # every program kind x address kind, nothing else generated before: the emitted statement has the shape the theorem needs; where
+    # it has not, instances are interleaved all the same so that the replay is a lost update
     for fmt, kind, sign in FAMILY:
-        bits = 32 if fmt in "iI" else 64
+        for prog in PROG_KINDS:
+            for addr in ADDR_KINDS:
+                scase = {"fmt": fmt, "amount": kind, "sign": sign, "const": rng.choice(consts(fmt)), "addr": addr, "prog": prog,
+                         "prior": _built_prior[0] if _built_prior else None}
+                info = build(fmt, kind, sign, scase["const"], addr=addr, prog=prog, prior=scase["prior"])
+                bad = shape(info, fmt, False)
+                ctx.case(scase, kind=f"shape-{prog}-{addr}")
+                if bad is not None:     # first the property itself (a lost update), then the broken hypothesis of the theorem
+                    interleave(ctx, scase, info, [], [], quick_scheds=1)
+                ctx.require(bad is None, "emitted code is not 'private computation; one XADD on the variable'", scase, bad, "shape")
+    for fmt, kind, sign in FAMILY:
         for _ in range(ctx.n(4, 60)):
-            const = rng.choice([0, 1, 5, 255, 1000, 0x7fffffff // 100000 if fmt == "x" else 0x7fffffff])
-            addr = rng.choice(ADDR_KINDS)
-            info = build(fmt, kind, sign, const, addr=addr)
+            scase = {"fmt": fmt, "amount": kind, "sign": sign, "const": rng.choice(consts(fmt)), "addr": rng.choice(ADDR_KINDS),
+                     "prog": rng.choice(PROG_KINDS), "prior": _built_prior[0] if _built_prior else rng.choice(PRIORS)}
+            info = build(fmt, kind, sign, scase["const"], addr=scase["addr"], prog=scase["prog"], prior=scase["prior"])
             bad = shape(info, fmt, False)
-            scase = {"fmt": fmt, "amount": kind, "sign": sign, "const": const, "addr": addr}
+            interleave(ctx, scase, info, *((cases, impl) if bad is None else ([], [])))
             ctx.require(bad is None, "emitted code is not 'private computation; one XADD on the variable'", scase, bad, "shape")
-            if bad is not None:
-                continue
-            nthreads = rng.choice([2, 3])
-            r3s = [rng.choice([0, 1, 2, 0xffff, 0x7fffffff, (1 << 32) - 1, (1 << 63), (1 << 64) - 1]) if rng.random() < 0.5
-                   else rng.getrandbits(rng.choice([8, 32, 64])) for _ in range(nthreads)]
-            init = rng.choice([0, 1, (1 << bits) - 1, (1 << (bits - 1)), rng.getrandbits(bits)])
-            # solo runs: number of instructions before the XADD on each instance's path
-            pres = []
-            for r3 in r3s:
-                mp, (m,) = make_threads(info, fmt, 1, [r3])
-                m.run()
-                xi = [i for i, ins in enumerate(info["insns"]) if (ins.opcode.value & 0xe7) == 0xc3][0]
-                pres.append(m.trace.index(xi))
-            total = max(len(info["insns"]) + 3, 30)
-            scheds = []
-            for _ in range(ctx.n(3, 10)):
-                s = [i for i in range(nthreads) for _ in range(total)]
-                rng.shuffle(s)
-                scheds.append(s)
-            for perm in itertools.permutations(range(nthreads)):
-                # all run up to their XADD, then the XADDs in this order, then the rest
-                s = [i for i in range(nthreads) for _ in range(pres[i])] + list(perm) + [i for i in range(nthreads) for _ in range(total)]
-                scheds.append(s)
-            amounts = [amount_of(fmt, kind, sign, const, r3, bits) for r3 in r3s]
-            for s in scheds:
-                mp, ms = make_threads(info, fmt, nthreads, r3s)
-                struct.pack_into("<Q" if bits == 64 else "<I", mp.value.data, info["off"], init)
-                try:
-                    run_sched(ms, s)
-                    final, = struct.unpack_from("<Q" if bits == 64 else "<I", mp.value.data, info["off"])
-                    alldone = all(m.exited for m in ms)
-                    out = f"{final} {' '.join('1' if (m.exited or m.pc > [i for i, ins in enumerate(info['insns']) if (ins.opcode.value & 0xe7) == 0xc3][0]) else '0' for m in ms)}"
-                except interp.Fault as e:
-                    final, alldone, out = None, False, f"fault:{e}"
-                case = {"bits": bits, "sched": s, "cell": init, "threads": [[p, a] for p, a in zip(pres, amounts)],
-                        "stmt": scase, "r3": r3s}
-                ctx.case({k: case[k] for k in ("bits", "cell", "threads", "stmt")} | {"schedule_len": len(s)},
-                         nontrivial=True, kind=f"{fmt}-{kind}-{addr}")
-                if alldone:
-                    ctx.require(final == (init + sum(amounts)) % (1 << bits), "an update was lost (final value is not initial + sum of all amounts)",
-                                case, out, "lost")
-                else:
-                    ctx.require(final is not None, "execution fault", case, out, "fault")
-                cases.append(case); impl.append(out)
         # local variable of the same format: single-instance statement
         const = 7
         info = build(fmt, kind, sign, const, local=True)
         bad = shape(info, fmt, True)
         ctx.require(bad is None, "local variable: emitted code is not one XADD on the variable", {"fmt": fmt, "amount": kind, "sign": sign, "const": const, "local": True}, bad, "shape")
         # variable of a per-CPU array map (the instances running on one CPU share that CPU's copy): same statement shape
-        info = build(fmt, kind, sign, const, percpu=True)
-        bad = shape(info, fmt, False)
-        ctx.case({"fmt": fmt, "amount": kind, "sign": sign, "percpu": True}, kind=f"{fmt}-{kind}-percpu")
-        ctx.require(bad is None, "per-CPU map variable: emitted code is not 'private computation; one XADD on the variable'",
-                    {"fmt": fmt, "amount": kind, "sign": sign, "const": const, "percpu": True}, bad, "shape")
+        for prog in ("ebpf", "xdp-guard"):
+            info = build(fmt, kind, sign, const, percpu=True, prog=prog)
+            bad = shape(info, fmt, False)
+            pcase = {"fmt": fmt, "amount": kind, "sign": sign, "const": const, "percpu": True, "prog": prog}
+            ctx.case(pcase, kind=f"{fmt}-{kind}-percpu")
+            ctx.require(bad is None, "per-CPU map variable: emitted code is not 'private computation; one XADD on the variable'", pcase, bad, "shape")
     model = ctx.drive(DRIVER, [{k: c[k] for k in ("bits", "sched", "cell", "threads")} for c in cases], "xadd schedules")
     if model is not None:
         for c, i, m in zip(cases, impl, model):
@@ -242,22 +382,20 @@ def replay(ctx, case):
     if "stmt" not in case:          # a shape case: re-generate the statement and look at it again
         local = bool(case.get("local"))
         info = build(case["fmt"], case["amount"], case.get("sign", 1), case.get("const", 7), local=local, addr=case.get("addr", "var"),
-                     percpu=bool(case.get("percpu")))
+                     percpu=bool(case.get("percpu")), prog=case.get("prog", "ebpf"), prior=case.get("prior"))
         bad = shape(info, case["fmt"], local)
         ctx.require(bad is None, "emitted code is not 'private computation; one XADD on the variable'", case, bad, "shape")
         return {"shape": bad or "ok"}
     st = case["stmt"]
-    info = build(st["fmt"], st["amount"], st["sign"], st["const"], addr=st.get("addr", "var"))
+    info = build(st["fmt"], st["amount"], st["sign"], st["const"], addr=st.get("addr", "var"), prog=st.get("prog", "ebpf"), prior=st.get("prior"))
     bits = case["bits"]
-    mp, ms = make_threads(info, st["fmt"], len(case["r3"]), case["r3"])
-    struct.pack_into("<Q" if bits == 64 else "<I", mp.value.data, info["off"], case["cell"])
-    run_sched(ms, case["sched"])
-    final, = struct.unpack_from("<Q" if bits == 64 else "<I", mp.value.data, info["off"])
-    amounts = [a for _, a in case["threads"]]
-    if all(m.exited for m in ms):
-        ctx.require(final == (case["cell"] + sum(amounts)) % (1 << bits), "an update was lost", case, str(final), "lost")
+    final, alldone, out = execute(info, bits, case["r3"], [p for p, _ in case["threads"]], case["cell"], case["sched"])
+    amounts = [amount_of(st["fmt"], st["amount"], st["sign"], st["const"], r3, bits) for r3 in case["r3"]]   # from the statement, not the record
+    if alldone:
+        ctx.require(final == (case["cell"] + sum(amounts)) % (1 << bits), "an update was lost", case, out, "lost")
+    else:
+        ctx.require(final is not None, "execution fault", case, out, "fault")
     return {"final": final}
-
 
 LEVEL_TEXT = ("Translation validation by proof of 420 regenerated statements (each is private computation + exactly one XADD on the variable + no load; "
               "one run = one step of the schedule model) + Lean 4 proof over a schedule model: for any number of instances and any interleaving at instruction granularity, code of the shape "
